@@ -31,6 +31,9 @@ var c02H = []c02Hostile{
 	{"quote", `"`}, {"backslash", `\`}, {"escaped-quote", `\"`}, {"inject-member", `","type":"Delete`}, {"close-brace", `"}`}, {"unicode-escape", `A`},
 	{"script", `</script>`}, {"LF", "\n"}, {"NUL", "\x00"}, {"x1f", "\x1f"}, {"DEL", "\x7f"}, {"non-ascii", "é"}, {"U+2028", " "}, {"astral", "😀"},
 	{"invalid-utf8", "\xff"}, {"truncated-rune", "\xc3"}, {"mid-quote", `a"b`}, {"double-quote", `""`}, {"trailing-backslash", `a\`},
+	// ill-formed UTF-8 of every kind (a hostile byte right after a cut sequence must still be escaped), format characters
+	{"cut-4byte-after-3", "\xf0\x9f\x98"}, {"cut-4byte-after-2", "\xf0\x9f"}, {"cut-3byte", "\xe2\x82"}, {"overlong", "\xc0\xaf"}, {"surrogate", "\xed\xa0\x80"},
+	{"lone-continuation", "\x80"}, {"U+2066", "\u2066"}, {"BOM", "\ufeff"},
 }
 
 var c02Duration = regexp.MustCompile(`^-?P(\d+Y)?(\d+M)?(\d+D)?(T(\d+H)?(\d+M)?(\d+(\.\d+)?S)?)?$`)
@@ -314,15 +317,15 @@ func init() {
 		ID: "C02", Name: "json-wellformed", Level: "model_checking",
 		Rule: "(i) structure: the level-0, level-1 and saturated universe of C01 through every MarshalJSON method and the package function; (ii) strings: every string-bearing position found by reflection " +
 			"(ids, IRI-typed fields and IRI items, types, media types, hrefLang, units, key material, natural-language texts and language tags, nested structs), at top level, inside an embedded object and inside a list, " +
-			"x the hostile alphabet of 19 strings (quotes, backslashes, member injection, control bytes, invalid UTF-8 ...), alone, with a benign prefix, and in ordered pairs; (iii) language lists with an untagged entry; " +
+			"x the hostile alphabet of 27 strings (quotes, backslashes, member injection, control bytes, ill-formed UTF-8 of every kind, format characters), also as the only member of a list,, alone, with a benign prefix, and in ordered pairs; (iii) language lists with an untagged entry; " +
 			"(iv) the scalar marshalers IRI, IRIs, ItemCollection, MimeType, ActivityVocabularyType, NaturalLanguageValues; oracle: independent reader + parallel reflection walk; " +
 			"non-trivial = output with at least one member beyond id/type or a hostile string",
 		Assumptions: []string{"reading D2: an invalid UTF-8 byte may come back as U+FFFD", "member order, whitespace and number formatting are not judged", "members starting with @ are JSON-LD keywords and are not judged"},
 		Bound: func(tier string) string {
 			if tier == "thorough" {
-				return "structure complete for levels 0/1/saturated; hostile strings: singles, prefixed and all 361 ordered pairs at 3 nesting positions; boundary-length strings in 11 string positions and an empty-but-non-nil neighbour next to every property"
+				return "structure complete for levels 0/1/saturated; hostile strings: singles, prefixed and all 729 ordered pairs at 3 nesting positions; boundary-length strings in 11 string positions and an empty-but-non-nil neighbour next to every property"
 			}
-			return "structure complete for levels 0/1/saturated; hostile strings: singles and prefixed at 3 nesting positions, all 361 ordered pairs at top level; boundary-length strings in 11 string positions and an empty-but-non-nil neighbour next to every property"
+			return "structure complete for levels 0/1/saturated; hostile strings: singles and prefixed at 3 nesting positions, all 729 ordered pairs at top level; boundary-length strings in 11 string positions and an empty-but-non-nil neighbour next to every property"
 		},
 		DeadlineQuick: 5 * time.Minute, DeadlineThorough: 40 * time.Minute,
 		Run: c02Run,
@@ -394,10 +397,20 @@ func c02Setters(st *universe.Struct) []c02Setter {
 				c02Setter{f.Term + "(iris)", func(e reflect.Value, s string) {
 					e.Field(f.Index).Set(reflect.ValueOf(ap.IRIs{"https://example.com/ok", ap.IRI(s)}))
 				}},
+				// lists of ONE: written without the surrounding array, by another code path than the members of a longer list
+				c02Setter{f.Term + "(list-of-one)", func(e reflect.Value, s string) {
+					e.Field(f.Index).Set(reflect.ValueOf(ap.ItemCollection{ap.IRI(s)}))
+				}},
+				c02Setter{f.Term + "(*list-of-one)", func(e reflect.Value, s string) {
+					e.Field(f.Index).Set(reflect.ValueOf(&ap.ItemCollection{ap.IRI(s)}))
+				}},
+				c02Setter{f.Term + "(iris-of-one)", func(e reflect.Value, s string) { e.Field(f.Index).Set(reflect.ValueOf(ap.IRIs{ap.IRI(s)})) }},
 			)
 		case universe.KItems:
 			out = append(out, c02Setter{f.Term + "(iri)", func(e reflect.Value, s string) {
 				e.Field(f.Index).Set(reflect.ValueOf(ap.ItemCollection{ap.IRI("https://example.com/ok"), ap.IRI(s)}))
+			}}, c02Setter{f.Term + "(list-of-one)", func(e reflect.Value, s string) {
+				e.Field(f.Index).Set(reflect.ValueOf(ap.ItemCollection{ap.IRI(s)}))
 			}})
 		case universe.KSource:
 			out = append(out,
@@ -454,6 +467,14 @@ func c02Run(c *engine.Ctx) {
 	universe.Scale(func(r universe.Recipe) {
 		c02Check(c, "structure", "boundary", r.String, func() any { return r.Build() }, []string{"method"}, true)
 	})
+	universe.IRIPresentations(func(r universe.Recipe) {
+		c02Check(c, "structure", "iri-form", r.String, func() any { return r.Build() }, []string{"method"}, true)
+	})
+	for i := range universe.Structs {
+		universe.ListForms(&universe.Structs[i], func(r universe.Recipe) {
+			c02Check(c, "structure", "list-form", r.String, func() any { return r.Build() }, both, true)
+		})
+	}
 	for i := range universe.Structs {
 		s := &universe.Structs[i]
 		universe.Degenerate(s, universe.JSON, func(r universe.Recipe) {
